@@ -115,6 +115,30 @@ def run_case(ctx, i, rng):
             keep_alive.append(f_)
             ctx.count("parentless_sharers")
         run_case._keep = keep_alive
+    if i % 4 == 2:
+        # definitions edited AFTER they were instanced: a port inserted in front / a non-last port widened, so that the order
+        # in which instances received their pins differs from the port order of the definition
+        shared_defs = [d_ for l in n.libraries for d_ in l.definitions if len(d_.references) >= 2 and (d_.children or d_.cables)]
+        for d_ in rng.sample(shared_defs, min(len(shared_defs), 2)):
+            try:
+                np_ = sdn.Port("late_%d" % rng.randrange(1000), direction=sdn.IN)
+                np_.create_pins(rng.choice([1, 2]))
+                d_.add_port(np_, position=0)
+                if len(d_.ports) > 2 and rng.random() < 0.5:
+                    list(d_.ports)[1].create_pin()
+            except ValueError:
+                continue
+            inner = [w for c in d_.cables for w in c.wires]
+            for pin in np_.pins:
+                if inner and rng.random() < 0.8:
+                    rng.choice(inner).connect_pin(pin)
+                for inst in list(d_.references):
+                    if inst.parent is None:
+                        continue
+                    outer = [w for c in inst.parent.cables for w in c.wires]
+                    if outer and rng.random() < 0.8:
+                        rng.choice(outer).connect_pin(inst.pins[pin])
+            ctx.count("definitions_edited_after_instancing")
     e0 = Elab(n, max_occ=2500)
     if e0.truncated:
         ctx.count("discarded_too_large")
